@@ -1,7 +1,8 @@
 (* Model of the extended-Lagrangian degree of freedom of a scalar collective variable
    (src/colvar.cpp): colvar::init_extended_Lagrangian (parameters from fluctuation, time constant,
    temperature, damping), the extended-Lagrangian part of colvar::calc_colvar_properties
-   (initialisation, clamping to reflecting boundaries, repeated-step reversion, jump detection,
+   (initialisation, clamping to reflecting boundaries, repeated-step reversion, jump detection with the
+   same clamping [fix-C17],
    reported value and velocity), colvar::update_forces_energy + colvar::update_extended_Lagrangian
    (time-step-factor guard, force split, two half kicks, two half drifts, optional O step with a
    supplied Gaussian number, reflection, wrapping, energies, reported total force) and
@@ -115,7 +116,7 @@ Section ExtLag.
       else (xext_or s zero, s_v_ext s) in
     if i_running i && Z.eqb (i_step i) (s_prev_ts s) then
       let jump2 := cv_dist2 c (i_x i) (s_x_old s) / (c_width c * c_width c) in
-      if nltb O quarter jump2 then (i_x i, ve) else (s_prev_x s, s_prev_v s)
+      if nltb O quarter jump2 then (clamp_init c (i_x i), ve) else (s_prev_x s, s_prev_v s)
     else (xe, ve).
 
   (* the guard at the top of colvar::update_extended_Lagrangian *)
